@@ -399,10 +399,16 @@ def solver_args(lib, m, names):
         a.d['t'].sym = nm
         arrs[nm] = a
         return a
-    args = [k]
-    for ty in ps[1:-1]:
+    from ..roles import solver_param_roles
+    proles = solver_param_roles(lib, ps) or (['k'] + ['coef'] * (len(ps) - 2) + ['rhs'])
+    args = []
+    for ty, pr in zip(ps, proles):
         t = strip_generics(ty.lstrip('&').replace('mut ', '', 1).strip())
-        if t in adts and adts[t].get('variants'):
+        if pr == 'k':
+            args.append(Ref(ValPlace(k)) if ty.startswith('&') else k)
+        elif pr == 'rhs':
+            args.append(Ref(ValPlace(rhs)) if ty.startswith('&') else rhs)
+        elif t in adts and adts[t].get('variants'):
             fields = {}
             for f_ in adts[t]['variants'][0]['fields']:
                 fields[f_['name']] = fresh1() if 'ndarray::Dim<[usize; 1]>' in f_['ty'] else Opaque('field ' + f_['name'])
@@ -411,7 +417,6 @@ def solver_args(lib, m, names):
         else:
             a = fresh1()
             args.append(Ref(ValPlace(a)) if ty.startswith('&') else a)
-    args.append(Ref(ValPlace(rhs)) if ps[-1].startswith('&') else rhs)
     return args, k, arrs, rhs
 
 
